@@ -107,6 +107,96 @@ def grouping(check: Check) -> None:
 
 # ------------------------------------------------------------------------------------------------ T-inf
 def infer_type_table(check: Check) -> None:
+    """T-inf, by interpretation where the interpreter can follow `infer_type` (the path rule below is the fallback)."""
+    if not infer_type_semantics(check):
+        infer_type_paths(check)
+
+
+def infer_type_semantics(check: Check, rule: str = "T-inf") -> bool:
+    """`WeightedDefuzzifier.infer_type` interpreted (sa/objexec.py) on model components built through the real constructors: Constant / Linear / Function
+    terms (Takagi-Sugeno), every monotonic term class (Tsukamoto), a non-monotonic one (Automatic), each also wrapped in an Activated term; fuzzy
+    outputs and variables holding none, one kind, or several kinds of them (a TypeError for several). The statement's table, per component."""
+    from ..absexec import Internal, MObj, Raised, Sym, Unknown
+    from .roundtrip_sem import E0, Counter, make_component, new_exec
+
+    p = check.program
+    fn = p.func("WeightedDefuzzifier.infer_type")
+    check.analysed(fn)
+    bad: dict[str, str] = {}
+    n = 0
+    try:
+        ex = new_exec(p)
+        cnt = Counter()
+        wd = p.cls("WeightedDefuzzifier")
+        members = {m.fields["name"]: m for m in ex.members(p.cls("WeightedDefuzzifier.Type"))}
+        from ..objexec import ClassV
+
+        def kind_of(c) -> str:  # type: ignore[no-untyped-def]
+            if c.name in ("Constant", "Linear", "Function"):
+                return "TakagiSugeno"
+            mono = c.lookup("tsukamoto") is not None and c.lookup("tsukamoto").cls is not None and c.lookup("tsukamoto").cls.name != "Term"
+            return "Tsukamoto" if mono else "Automatic"
+
+        terms = []
+        for c in p.subclasses("Term", concrete_only=True):
+            if c.outer is not None or c.name in ("Activated", "Aggregated", "Discrete"):
+                continue
+            t = make_component(ex, c, cnt, name=c.name)
+            if t is not None:
+                terms.append((c.name, t, kind_of(c)))
+
+        def run(component, what: str, want: str, key: str) -> None:  # type: ignore[no-untyped-def]
+            nonlocal n
+            n += 1
+            try:
+                got = ex.invoke(fn, [ClassV(wd.qualname), component], {}, E0)
+                got_s = got.fields.get("name") if isinstance(got, MObj) and got.fields.get("__enum__") else repr(got)
+            except Raised as r_:
+                got_s = "raise:" + r_.cls
+            except Internal as i_:
+                got_s = "internal:" + i_.cls
+            if got_s != want:
+                bad.setdefault(key, f"infer_type({what}) is {got_s}, specified {want}")
+
+        by_kind: dict[str, list] = {}
+        for name, t, kind in terms:
+            by_kind.setdefault(kind, []).append(t)
+            run(t, f"a {name} term", kind, {"TakagiSugeno": "takagi-sugeno", "Tsukamoto": "monotonic", "Automatic": "other"}[kind])
+            act = ex.instantiate(p.cls("Activated"), [t, Sym("w")], {}, E0)
+            run(act, f"an activated {name} term", kind, "activated")
+        # terms defined outside the library: what decides is what the term declares (is_monotonic), not which library class it is
+        for declares, kind in ((True, "Tsukamoto"), (False, "Automatic")):
+            user = MObj(p.cls("Term").qualname, {"name": "user", "height": 1.0, "is_monotonic": (lambda ex_, e, args, kw, d=declares: d)})
+            run(user, f"a term defined outside the library whose is_monotonic() is {declares}", kind, "monotonic" if declares else "other")
+        ts, tk, au = by_kind.get("TakagiSugeno", []), by_kind.get("Tsukamoto", []), by_kind.get("Automatic", [])
+        if not (ts and tk and au):
+            raise Unknown("the three kinds of model terms could not be built")
+
+        def fuzzy(items):  # type: ignore[no-untyped-def]
+            return ex.instantiate(p.cls("Aggregated"), [], {"name": "out", "terms": [ex.instantiate(p.cls("Activated"), [t, Sym("w")], {}, E0) for t in items]}, E0)
+
+        def variable(items):  # type: ignore[no-untyped-def]
+            return ex.instantiate(p.cls("OutputVariable"), [], {"name": "v", "terms": list(items)}, E0)
+
+        for build, label in ((fuzzy, "a fuzzy output activating"), (variable, "a variable with")):
+            run(build([]), f"{label} nothing", "Automatic", "collection-empty")
+            run(build(ts[:2]), f"{label} two Takagi-Sugeno terms", "TakagiSugeno", "collection-one-type")
+            run(build(tk[:2]), f"{label} two monotonic terms", "Tsukamoto", "collection-one-type")
+            run(build(au[:1]), f"{label} a non-monotonic term", "Automatic", "collection-one-type")
+            run(build(ts[:1] + tk[:1]), f"{label} a Takagi-Sugeno and a monotonic term", "raise:TypeError", "collection-mixed")
+            run(build(tk[:1] + au[:1] + tk[1:2]), f"{label} monotonic and non-monotonic terms", "raise:TypeError", "collection-mixed")
+    except Unknown as u:
+        check.notes.append(f"{rule}: infer_type is outside the interpreter's model ({u}); decided on the paths of the code")
+        return False
+    for key, good in (("takagi-sugeno", "Constant / Linear / Function terms are Takagi-Sugeno"), ("monotonic", "monotonic terms are Tsukamoto"), ("other", "other terms are Automatic"),
+                      ("activated", "an activated term has the kind of its term"), ("collection-empty", "an empty fuzzy output / variable is Automatic"),
+                      ("collection-one-type", "a fuzzy output / variable whose terms have one kind has that kind"), ("collection-mixed", "several kinds are a TypeError")):
+        hit = bad.get(key)
+        check.require(hit is None, rule, f"WeightedDefuzzifier.infer_type/{key}", f"{good} ({n} model components)" if hit is None else hit, loc(fn), exhaustive=True, cases=n)
+    return True
+
+
+def infer_type_paths(check: Check) -> None:
     p = check.program
     fn = p.func("WeightedDefuzzifier.infer_type")
     check.analysed(fn)
